@@ -67,8 +67,6 @@ def rows(tier: str):
     q = [
         ('chain-rm-all', 'chain', 1,
          [[rm('1/a'), rm('1/b'), rm('1/c')]]),
-        ('chain-rm-flow1', 'chain', 1,
-         [[rm('1/a', '1'), rm('1/b', '1'), rm('1/c', '1')]]),
         ('diamond-rm-bd', 'diamond', 1,
          [[rm('1/b'), rm('1/d', '1'), rm('1/a', '1')]]),
         ('ordiamond-rm-b', 'ordiamond', 1, [[rm('1/b')]]),
@@ -84,6 +82,8 @@ def rows(tier: str):
     if tier == 'quick':
         return q
     return q + [
+        ('chain-rm-flow1', 'chain', 1,
+         [[rm('1/a', '1'), rm('1/b', '1'), rm('1/c', '1')]]),
         ('chain-flow2-rm-all', 'chain', 1,
          [[trig('1/a', '2')], [rm('1/b'), rm('1/c', '1')]]),
         ('prevchain-rm', 'prevchain', 2,
